@@ -61,6 +61,9 @@ func runC13(c *Ctx, idx int) {
 	if idx%4 == 1 {
 		pageStr = []string{"http://example.com/story/alpha%20beta/caf%C3%A9/page%2F2?x=%41&y=a+b", "http://example.com/a%2Fb/%7Euser/page/2/", "HTTP://EXAMPLE.com:80/Story/../alpha/./page/2?#", "//example.com/stories/lake", "http://example.com"}[idx/4%5]
 	}
+	if idx%4 == 3 && !strings.Contains(pageStr, "#") {
+		pageStr += "#chapter-4" // Result.URL is the address as supplied, fragment included, whatever the options
+	}
 	page := mustURL(pageStr)
 	wit := func(extra map[string]any) map[string]any {
 		w := map[string]any{"html": src, "page_url": pageStr}
